@@ -59,7 +59,7 @@ func runC17(c *Ctx, r *Report, tier string) {
 	// ---- COLUMN
 	calls, _ := c.callersOf(gai)
 	nIn := 0
-	loopsWH := loopsOf(wh)
+	loopsWH := c.loopsDeep(wh)
 	for _, cs := range calls {
 		if cs.Fn == wh {
 			nIn++
@@ -71,7 +71,7 @@ func runC17(c *Ctx, r *Report, tier string) {
 	r.Check(nIn == 1, "COLUMN", c.fname(wh), "one getAlignmentInfo call", c.pos(wh.Pos()), "exactly one call", fmt.Sprintf("%d calls", nIn))
 	// descriptionStart reads only the measured fields
 	var badF []string
-	for _, b := range ds.Blocks {
+	for _, b := range c.blocks(ds) {
 		for _, in := range b.Instrs {
 			if fa, ok := in.(*ssa.FieldAddr); ok {
 				switch n := fieldObj(fa.X.Type(), fa.Field).Name(); n {
@@ -198,7 +198,7 @@ func runC17(c *Ctx, r *Report, tier string) {
 		}
 		r.Check(nUpd >= 2, "MEASURE", mn, "updateLen calls", c.pos(meas.Pos()), "options and positional argument names are both measured", fmt.Sprintf("%d updateLen calls recognised", nUpd))
 		// the choices concat must depend only on len(Choices) != 0
-		for _, b := range meas.Blocks {
+		for _, b := range c.blocks(meas) {
 			for _, in := range b.Instrs {
 				call, ok := in.(*ssa.Call)
 				if !ok || c.calleeName(call.Common()) != "strings.Join" || !strings.HasPrefix(c.term(call.Call.Args[0]), "Option.Choices(") {
@@ -225,7 +225,7 @@ func runC17(c *Ctx, r *Report, tier string) {
 	// ---- WRAP
 	wn := c.fname(wt)
 	var lVal ssa.Value
-	for _, b := range wt.Blocks {
+	for _, b := range c.blocks(wt) {
 		for _, in := range b.Instrs {
 			if p, ok := in.(*ssa.Phi); ok && c.term(p) == "phi{10 | P1}" {
 				lVal = p
@@ -248,7 +248,7 @@ func runC17(c *Ctx, r *Report, tier string) {
 		// every loop test and cut uses the clamped width
 		fx := c.newFacts(wt)
 		nCut := 0
-		for _, b := range wt.Blocks {
+		for _, b := range c.blocks(wt) {
 			for _, in := range b.Instrs {
 				sl, ok := in.(*ssa.Slice)
 				if !ok || sl.High == nil || sl.Low != nil {
